@@ -249,6 +249,8 @@ func R1Loops(c *Ctx, scope []*ssa.Function, ruleSuffix string) {
 					c.R.Ok(rule, fname, construct, c.pos(s.Pos()), "CanIRead-conditioned: each iteration consumes input (R2-loop-progress)", true)
 				case s.Cond != nil && isRowsNext(pk, s.Cond):
 					c.R.Ok(rule, fname, construct, c.pos(s.Pos()), "iterates a finite database result set", false)
+				case chainWalk(s):
+					c.R.Ok(rule, fname, construct, c.pos(s.Pos()), "walk along a pointer chain until nil (x = x.<field>): terminates because the linked structure is acyclic (pivot graph: R9-cycle-guard keeps it a forest)", true)
 				case countedLoop(pk, s):
 					c.R.Ok(rule, fname, construct, c.pos(s.Pos()), "counted loop: the induction variable moves monotonically towards its bound", true)
 				default:
@@ -365,4 +367,53 @@ func isRowsNext(pk *packages.Package, e ast.Expr) bool {
 		return false
 	}
 	return FullName(Callee(pk.TypesInfo, call)) == "database/sql.Rows.Next"
+}
+
+// chainWalk: `for x := e; x != nil; x = x.F1.F2…` with x not otherwise assigned in the body.
+func chainWalk(s *ast.ForStmt) bool {
+	be, ok := s.Cond.(*ast.BinaryExpr)
+	if !ok || be.Op != token.NEQ {
+		return false
+	}
+	id, ok := be.X.(*ast.Ident)
+	if !ok {
+		return false
+	}
+	if nl, ok := be.Y.(*ast.Ident); !ok || nl.Name != "nil" {
+		return false
+	}
+	as, ok := s.Post.(*ast.AssignStmt)
+	if !ok || len(as.Lhs) != 1 || len(as.Rhs) != 1 || as.Tok != token.ASSIGN {
+		return false
+	}
+	if l, ok := as.Lhs[0].(*ast.Ident); !ok || l.Name != id.Name {
+		return false
+	}
+	// rhs is a selector chain rooted at x
+	e := as.Rhs[0]
+	depth := 0
+	for {
+		sel, ok := e.(*ast.SelectorExpr)
+		if !ok {
+			break
+		}
+		e = sel.X
+		depth++
+	}
+	root, ok := e.(*ast.Ident)
+	if !ok || root.Name != id.Name || depth == 0 {
+		return false
+	}
+	assigned := false
+	ast.Inspect(s.Body, func(n ast.Node) bool {
+		if a, ok := n.(*ast.AssignStmt); ok {
+			for _, l := range a.Lhs {
+				if li, ok := l.(*ast.Ident); ok && li.Name == id.Name {
+					assigned = true
+				}
+			}
+		}
+		return true
+	})
+	return !assigned
 }
